@@ -11,7 +11,11 @@ pub fn run(args: &Args) {
     let mut rng = Rng::new(args.seed ^ 0x13);
     let reps = if args.thorough { 40 } else { 4 };
     let mut cases = 0;
-    for m in zoo::zoo(args.thorough) {
+    let mut models = zoo::zoo(args.thorough);
+    let nzoo = models.len();
+    models.extend(zoo::shipped_sample(&mut rng, args.thorough));
+    for (mi, m) in models.into_iter().enumerate() {
+        let reps = if mi < nzoo { reps } else { 1 };
         if m.family == "ElectrolytePcSaft" {
             continue; // the coefficient does not exist for electrolyte solutions (C13 excludes them)
         }
